@@ -1628,7 +1628,7 @@ Section Cursor.
     bytes start -> (usekey = true -> Sk = full_key below ++ start) ->
     RI (length below) (stack_prefix below) (full_key below) cmp0 ->
     (lvl (length below) <= fuel)%nat ->
-    ff_post (ifindfirst fuel ls (mkc below) start sp one_point cmp0 cbs) below root
+    ff_post (ifindfirst true fuel ls (mkc below) start sp one_point cmp0 cbs) below root
             (dlayer (length below) (stack_prefix below) (full_key below)).
   Proof.
     induction fuel as [|f IH]; intros below start one_point cmp0 cbs root Hs Hlk Eg Hb HSk HR Hfuel.
@@ -1697,7 +1697,7 @@ Section Cursor.
         specialize (IH below' (skipn 8 start) one_point
                        (cmp0 && kt_eq (dkt start) (end_tuple (mkc below) (length below))) cbs croot Hs1 Hlk').
         rewrite Ep', Epb', En' in IH.
-        assert (ff_post (ifindfirst f ls (mkc below') (skipn 8 start) sp one_point
+        assert (ff_post (ifindfirst true f ls (mkc below') (skipn 8 start) sp one_point
                            (cmp0 && kt_eq (dkt start) (end_tuple (mkc below) (length below))) cbs) below' croot
                         (dlayer (S n) (p ++ [ks (sl_key s)]) (pb ++ bytes_of_slice (ks (sl_key s)) 8))) as Hpost.
         { apply IH; clear IH.
@@ -1760,7 +1760,7 @@ Section Cursor.
 
   Lemma open_spec start one_point :
     bytes start -> (usekey = true -> Sk = start) ->
-    let o := ifindfirst (S (length ls)) ls (mkc []) start sp one_point true [] in
+    let o := ifindfirst true (S (length ls)) ls (mkc []) start sp one_point true [] in
     out_ok (match io_status o with
             | IS_CONT => inext true (S (length ls)) big ls (io_ctx o) (io_cbs o)
             | _ => o
@@ -1771,7 +1771,7 @@ Section Cursor.
     pose proof (ifindfirst_spec (S (length ls)) [] start one_point true [] root I (Forall_nil _) Eg Hb HSk RI_root) as Hpost.
     specialize (Hpost ltac:(unfold lvl; cbn [length]; lia)).
     cbn [length stack_prefix full_key map flat_map] in Hpost. rewrite ALL_dlayer in Hpost.
-    set (o := ifindfirst (S (length ls)) ls (mkc []) start sp one_point true []) in *.
+    set (o := ifindfirst true (S (length ls)) ls (mkc []) start sp one_point true []) in *.
     destruct Hpost as [[Est Hemp]|(news & Hnn & Ectx & Hsn & Hres)].
     - rewrite Est. assert (ALL = []) as ->; [|exact Est].
       unfold ALL. rewrite clayer_S, Eg, Hemp. cbn [flat_map]. apply (dl_nil rtl).
@@ -1812,7 +1812,7 @@ Section Cursor.
 
   Theorem cursor_all start one_point :
     bytes start -> (usekey = true -> Sk = start) ->
-    let o := ifindfirst (S (length ls)) ls (mkc []) start sp one_point true [] in
+    let o := ifindfirst true (S (length ls)) ls (mkc []) start sp one_point true [] in
     exists cbs',
       iscan_collect true (layers_entries ls + 4) tr
         (match io_status o with
@@ -1877,7 +1877,7 @@ Proof.
   { unfold sp. destruct rtl; [reflexivity|]. destruct le; try reflexivity. contradiction. }
   assert (bytes K) as HK by (unfold K; destruct rtl; assumption).
   assert (bytes start) as Hst by (unfold start; destruct rtl; assumption).
-  match goal with |- context [ifindfirst _ _ _ _ _ ?op _ _] => set (one_point := op) end.
+  match goal with |- context [ifindfirst _ _ _ _ _ _ ?op _ _] => set (one_point := op) end.
   destruct (cursor_all ctr ls Wst rtl K ep HK) with (Sk := start) (sp := sp) (tr := tr) (start := start)
     (one_point := one_point) as (cbs' & E).
   - intros Er. unfold ep. rewrite Er. exact Hle.
